@@ -123,7 +123,7 @@ def gen_cases(tier, seed, shard, nshards):
         yield {"id": "rand/%d" % k, "form": "random-lines", "lines": lines}
     for c in c03.pcr_cases(thorough, seed):
         i += 1
-        if i % nshards == shard and "pcrexpr" not in c["id"] and (thorough or "/k0" in c["id"] or i % 3 == 0):
+        if i % nshards == shard and "pcrexpr" not in c["id"] and (thorough or "/k0" in c["id"] or "pcrcross" in c["id"] or "pcrnest" in c["id"] or i % 3 == 0):
             yield {"id": "grid/" + c["id"], "form": "pcrgrid", "lines": c["lines"]}
     # pcr chains: several mutually dependent unsized PCR statements
     for k in range(3000 if thorough else 300):
